@@ -1080,6 +1080,14 @@ class Interp:
                 return ropes.const_seq(base.qualname.rsplit(".", 1)[-1])
             return VFunc(base.qualname + "." + name)
         if isinstance(base, VOpaque):
+            oa = getattr(E, "opaque_attrs", {}).get(base.tag, {})
+            if name in oa:
+                # data attribute of an opaque library object (deterministic per object: cached on the value)
+                cache = self.st.__dict__.setdefault("opaque_attr_cache", {})
+                key = (str(base.t), base.tag, name)
+                if key not in cache:
+                    cache[key] = self.fresh_of_type(oa[name], "%s.%s" % (base.tag, name))
+                return cache[key]
             return VFunc("%s.%s" % (base.tag, name), base)
         if isinstance(base, VInt):
             return VFunc("int." + name, base)
@@ -1565,6 +1573,11 @@ class Interp:
         t = self.eval(h.type, fr)
         classes = t.items if isinstance(t, VTuple) else [t]
         for c in classes:
+            if isinstance(c, (VFunc, VOpaque)):
+                # library exception reached through an attribute chain (nacl.exceptions.BadSignatureError)
+                nm = (c.qualname if isinstance(c, VFunc) else c.tag).split(":")[-1].rsplit(".", 1)[-1]
+                if self.E.is_exception_name(nm):
+                    c = VClass(nm)
             if not isinstance(c, VClass):
                 raise Unsupported("except clause with %r" % (c,))
             if self.exc_matches(exc.cls, c.qualname):
